@@ -30,6 +30,8 @@ pub fn eval_false_alarm(sc: &Scenario) -> CaseResult {
 
 pub fn gen_false_alarm(tier: Tier) -> BoxedStrategy<Scenario> {
     let mut p = GenParams::default();
+    // tick rates other than the default 60 fps (the builder's with_fps follows the game's tick rate)
+    p.fps = vec![60, 60, 60, 30, 120, 144];
     p.desync = (1..=12).collect();
     p.ticks = tier.pick((300, 1200), (1500, 4000));
     p.max_specs = 1;
